@@ -34,6 +34,14 @@ for e in sorted(glob.glob(f'{V}/evidence/C*.json')):
     except Exception: continue
     c=ev.get('coverage',{})
     out.append(f"| {ev.get('property_id')} | {len(c.get('harnesses',[]))} | {c.get('states','')} | {c.get('queries','')} | {c.get('solver_s','')} | {ev.get('wall_s','')} | {len(c.get('known_findings_reproduced',[]))} |")
+out.append('\n#### 7.8 Per property: what is decided and what is outside (from MANIFEST.json)\n')
+out.append('| property | decided within the bound | outside the bound / assumptions |')
+out.append('|---|---|---|')
+man=json.load(open(f'{V}/MANIFEST.json'))
+for c in man['checks']:
+    t=c['level_claimed']['text'].split(': ',1)[-1].replace('|','/')
+    n=c['level_note'].split('; bounds per harness')[0].replace('|','/')
+    out.append(f"| {c['property_id']} | {t} | {n} |")
 text='\n'.join(out)+'\n'
 p=f'{V}/DESIGN.md'
 s=open(p).read()
